@@ -44,7 +44,7 @@ TRUSTED = [
 
 def split_blob(blob: bytes):
     """(header, payload) around the first '_' - used only by the spec oracle and the mutation generator"""
-    if b"_" not in blob:
+    if not isinstance(blob, bytes) or b"_" not in blob:
         return None, None
     h, p = blob.split(b"_", 1)
     return h, p
@@ -154,6 +154,24 @@ def mutations(rng, key: str, blob: bytes, legit: dict, conf: S.Conf, thorough: b
         yield "digits", key, digits, sec
 
 
+def unsigned_mutations(rng, key: str, blob: bytes, thorough: bool):
+    """corruptions of an UNSIGNED stored blob (json / NonPickler configurations): outside C10's statement, run only to
+    compare the model's decode with the code on its remaining branches (custom decode defaults, DecodeError, digits)"""
+    n = len(blob)
+    for pos in range(n):
+        for b in subst_bytes(rng, blob[pos], thorough):
+            yield "unsigned", key, blob[:pos] + bytes([b]) + blob[pos + 1:], None
+        yield "unsigned", key, blob[:pos] + blob[pos + 1:], None
+        yield "unsigned", key, blob[:pos], None
+    for pos in range(n + 1):
+        for b in (0x5f, 0x3a, 0x30, 0x2b):
+            yield "unsigned", key, blob[:pos] + bytes([b]) + blob[pos:], None
+    for whole in (b"", b"123", b"007", b"bytes", b"bytes:", b":x", b"nosuchtype:x", b"Item:x", b"Item:+x", b"Item:", b"Item",
+                  b"Item:+", b"int:1", b"md5:abc_x", b"_", b"a_b", "Ωmega:+x".encode(),
+                  b"bytes:bytes:x", b"d:+", b"e:-"):
+        yield "unsigned", key, whole, None
+
+
 # ----------------------------------------------------------------------------------------------------
 # one scenario on the implementation
 # ----------------------------------------------------------------------------------------------------
@@ -167,13 +185,17 @@ def run_scenario(conf: S.Conf, writes, rng, thorough, stride=1, attacks=None):
             await wcache.set(k, v)
             legit[k] = await wcache.get_raw(k)
             if not isinstance(legit[k], bytes):
-                raise HarnessError(f"stored form of {v!r} under a secret is not bytes")
+                raise HarnessError(f"stored form of {v!r} is not bytes: nothing to corrupt")
         await wcache.set(NEIGHBOUR, "neighbour")
         nb_blob = await wcache.get_raw(NEIGHBOUR)
         readers = {}
         recs = []
-        todo = attacks if attacks is not None else [
-            a for k, b in legit.items() for a in mutations(rng, k, b, legit, conf, thorough, stride)]
+        if attacks is not None:
+            todo = attacks
+        elif conf.secret is None:
+            todo = [a for k, b in legit.items() for a in unsigned_mutations(rng, k, b, thorough)]
+        else:
+            todo = [a for k, b in legit.items() for a in mutations(rng, k, b, legit, conf, thorough, stride)]
         for cls, rkey, blob2, rsec in todo:
             if rsec == conf.secret and legit.get(rkey) == blob2:
                 continue  # not an alteration
@@ -256,7 +278,7 @@ def judge(conf: S.Conf, legit: dict, recs, ids: S.Ids, stats: dict, nb_payload: 
                 raise HarnessError(f"model asked for a MAC the driver did not announce: {line[:200]} -> {ans}")
         pre = p2.split()[0][4:]
         res = p3.split()[0][4:]
-        sec = r["secret"].encode()
+        sec = (r["secret"] or "").encode()
         same_reader = r["secret"] == conf.secret
         # ---------------- (a) implementation vs model
         expect_calls = [bytes.fromhex(pre.split(":", 1)[1])] if pre.startswith("loads:") else []
@@ -287,7 +309,7 @@ def judge(conf: S.Conf, legit: dict, recs, ids: S.Ids, stats: dict, nb_payload: 
         # ---------------- (b) the property
         # (b1) the unpickler is never run on bytes whose signature did not verify (every attack, every read path)
         for path, calls in (("get", called), ("get_many", r["many_loads"]), ("get_match", r["match_loads"])):
-            for p in calls:
+            for p in (calls if r["secret"] is not None else []):
                 if path == "get_many" and same_reader and p == nb_payload:
                     continue
                 if not independently_verifies(r["blob"], r["key"], sec, conf.digest, p):
@@ -295,7 +317,8 @@ def judge(conf: S.Conf, legit: dict, recs, ids: S.Ids, stats: dict, nb_payload: 
                                 f"{path}: unpickler was run on {p[:40]!r} although no signature over key||payload verifies "
                                 f"for key {r['key']!r}"))
         # (b2) an altered blob with the label intact never comes back as a value, only unsafe-data error or default
-        in_scope = conf.digest in S.KEYED and r["blob"].startswith(label) and r["class"] not in ("label", "digits")
+        in_scope = (r["secret"] is not None and conf.digest in S.KEYED and r["blob"].startswith(label)
+                    and r["class"] not in ("label", "digits"))
         stats["attacks_" + r["class"]] = stats.get("attacks_" + r["class"], 0) + 1
         stats["decision_" + pre.split(":")[0]] = stats.get("decision_" + pre.split(":")[0], 0) + 1
         if in_scope:
@@ -453,11 +476,20 @@ def run(chk: Check) -> int:
         scenarios.append(("corpus:" + name, conf, writes, attack))
         ncorpus += 1
     confs = c10_confs()
-    n = chk.budget(24, 84)
-    n_full = chk.budget(0, 9)          # scenarios swept with ALL 255 substitute bytes at every offset (thorough only)
+    n = chk.budget(24, 66)
+    n_full = chk.budget(0, 6)          # scenarios swept with ALL 255 substitute bytes at every offset (thorough only)
     for i in range(n):
         conf = confs[i % len(confs)]
         scenarios.append((f"gen:{i}", conf, gen_writes(chk.rng, conf), None))
+    for i in range(chk.budget(4, 16)):
+        conf = [S.Conf("json", None, "md5"), S.Conf(None, None, "md5")][i % 2]
+        writes = []
+        for k in chk.rng.choice(KEY_GROUPS):
+            v = S.gen_boxed(chk.rng) if chk.rng.random() < 0.5 else chk.rng.choice(S.ADV_BYTES)
+            if isinstance(v, S.Boxed):
+                v = type(v)(v.payload[:16])
+            writes.append((k, v))
+        scenarios.append((f"unsigned:{i}", conf, writes, None))
     exhaustive_blobs = 0
     full_blobs = 0
     for origin, conf, writes, attack in scenarios:
@@ -469,7 +501,7 @@ def run(chk: Check) -> int:
             legit, recs, nbp = run_scenario(conf, writes, chk.rng, chk.thorough, attacks=[attack])
         else:
             # quick: every offset of every blob, a handful of substitute bytes; thorough: all 255 substitutes
-            full = int(origin.split(":")[1]) < n_full
+            full = origin.startswith("gen:") and int(origin.split(":")[1]) < n_full
             legit, recs, nbp = run_scenario(conf, writes, chk.rng, full)
             exhaustive_blobs += len(legit)
             full_blobs += len(legit) if full else 0
@@ -507,7 +539,8 @@ def run(chk: Check) -> int:
                 "truncation at every offset, extensions, random multi-byte edits, splices with the other blobs of the scenario, copies under "
                 "the other keys (key groups contain keys that are prefixes of each other, with the D25 rearrangement of the payload), four "
                 "other secrets, relabelling and digit-only blobs (the last two outside the property's quantifier: model comparison and the "
-                "unpickler oracle only). Every case is read through get, get_many and get_match. Every case is non-trivial (a corrupted or "
+                "unpickler oracle only); plus corruptions of unsigned json / NonPickler blobs (class 'unsigned': model comparison only, they "
+                "exercise the default / DecodeError branches of the custom decoders). Every case is read through get, get_many and get_match. Every case is non-trivial (a corrupted or "
                 "foreign blob reaching decode); distinct = distinct (key, blob, reader secret).",
         "samples": samples,
         "corpus_cases": ncorpus,
